@@ -645,6 +645,14 @@ func printCaseSummary(path string) {
 	if json.Unmarshal(b, &c) != nil {
 		return
 	}
+	if c["expr"] == nil {
+		pb, _ := json.Marshal(c["params"])
+		if len(pb) > 300 {
+			pb = append(pb[:300], "..."...)
+		}
+		fmt.Printf("  case: check=%v params=%s\n  expected=%v\n  got=%v\n  note=%v\n", c["check"], pb, c["expected"], c["got"], c["note"])
+		return
+	}
 	fmt.Printf("  case: check=%v expr=%q doc=%v ctx=%v\n  expected=%v\n  got=%v\n  note=%v\n", c["check"], c["expr"], c["doc"], c["ctx"], c["expected"], c["got"], c["note"])
 }
 
